@@ -130,6 +130,19 @@ def run(c):
     sres = core.run_many([[B.exe("rel", "h_tb"), "scope", str(c.seed), str(3000 if quick else 100000)],
                           [B.exe("asan", "h_tb"), "scope", str(c.seed + 1), "500"]], timeout=3600)
     c.absorb("tb-scope", sres)
+    # the table inside a transposition table whose byte offsets exceed 2^32 (Hash > 4096 MB), when the machine has the memory for it
+    big_mb = 0
+    try:
+        avail = [int(l.split()[1]) for l in open("/proc/meminfo") if l.startswith("MemAvailable:")][0] // 1024
+    except Exception:
+        avail = 0
+    if avail > 14000:
+        big_mb = 4200 if quick else rnd.choice([4200, 5000, 8200])
+        bres = [core.run_proc([B.exe("rel", "h_tb"), "bigtt", "KQKR" if quick else rnd.choice(["KQKR", "KRKN", "KBNK"]), str(big_mb), str(c.seed)], timeout=3600)]
+        c.absorb("tb-inside-large-hash", bres)
+        bst = core.merge_stats(bres)
+    else:
+        bst = {}
     sst = core.merge_stats(sres)
     c.evaluations = st.get("positions_checked", 0) + ast.get("probes_after_abort", 0) + sst.get("scope_probes", 0)
     c.distinct = st.get("wins", 0) + st.get("losses", 0)
@@ -147,7 +160,8 @@ def run(c):
                    abort_cases=ast.get("abort_cases", 0), generations_aborted=ast.get("generations_aborted", 0),
                    generations_completed_despite_stop=ast.get("generations_completed", 0), probes_after_abort=ast.get("probes_after_abort", 0),
                    probes_of_previously_resident_class=ast.get("probes_of_previously_resident_class", 0),
-                   scope_probes_out_of_scope=sst.get("scope_out_probes", 0))
+                   scope_probes_out_of_scope=sst.get("scope_out_probes", 0), large_hash_table_mb=big_mb, large_hash_probes_compared=bst.get("probes_tt_large", 0),
+                   large_hash_note="run only when MemAvailable > 14 GB")
     c.assumptions += ["the mini rules engine in h_tb.cpp (independent of the engine and of refchess) generates the legal moves of <=4-men pawnless positions correctly; "
                       "it reproduces the known maximal DTM values (KQK 10, KRK 16, KBNK 33, KQKR 35) as a side effect",
                       "abort points are sampled in wall-clock fractions of a measured generation time, not enumerated per checkpoint"]
